@@ -347,6 +347,7 @@ def main(prop_id, argv=None):
     ap.add_argument("--shard")          # i/K : run only worlds with index % K == i (internal)
     ap.add_argument("--shard-out")
     args = ap.parse_args(argv)
+    _NO_EVIDENCE[0] = bool(args.no_evidence)
     mod = load(prop_id)
     os.environ["VERIF_TIER_ACTIVE"] = args.tier
     seed = int(os.environ.get("VERIF_SEED", "20261002"))
@@ -638,7 +639,12 @@ def replay(prop_id, mod, path):
     return 0
 
 
+_NO_EVIDENCE = [False]
+
+
 def write_evidence(prop_id, mod, seed, tier, agg, t0, st, pre, violations, harness_error=False):
+    if _NO_EVIDENCE[0]:
+        return          # --no-evidence: soaks and regression runs leave the committed evidence alone
     wall = time.perf_counter() - t0
     runs = agg.get("runs", 0)
     cov = {
